@@ -1,0 +1,38 @@
+//go:build verif
+
+package reghttp
+
+// Contracts checked by /verif (govc). Comment-only file; not part of normal builds.
+
+// C12 mirror order: among hosts that are not backing off, the comparator used to sort the host
+// list ranks a host before another only if its priority is at least as high (descending
+// priority), and with equal priority the upstream registry is never ranked before a mirror.
+//@ lemma mirror-order
+//@   prop C12
+//@   forall hosts []*clientHost, upstream string, i int, j int
+//@   assume 0 <= i && i < len(hosts) && 0 <= j && j < len(hosts)
+//@   assume hosts[i] != nil && hosts[j] != nil && hosts[i].config != nil && hosts[j].config != nil
+//@   assume hosts[i].backoffLast == time.Time{} && hosts[j].backoffLast == time.Time{}
+//@   let less = sortHostsCmp(hosts, upstream)
+//@   let lij = less(i, j)
+//@   assert descending-priority: lij ==> hosts[i].config.Priority >= hosts[j].config.Priority
+//@   assert higher-priority-first: hosts[i].config.Priority > hosts[j].config.Priority ==> lij
+//@   assert upstream-last-among-equals: hosts[i].config.Priority == hosts[j].config.Priority && hosts[i].config.Name == upstream && hosts[j].config.Name != upstream ==> !lij
+
+// getHost returns the (possibly newly created) entry for a host name. Assumed, not verified: it
+// only adds entries to the client's host map and never touches the fields of an existing entry.
+//@ func (*Client).getHost(host) (ch)
+//@   trusted only adds to Client.host; existing clientHost objects are not written
+//@   modifies M|map[string]*~/internal/reghttp.clientHost
+//@   ensures ch != nil
+
+// C12 backoff: while a host is in backoff (backoffCur > 0) the next request is released no
+// earlier than the previous release time plus the configured initial delay, and never more than
+// delayMax later than max(previous release, now); the delay computation must not overflow.
+//@ func (*Resp).backoffGet() (t)
+//@   prop C12
+//@   overflow on
+//@   entry-assume resp != nil && resp.client != nil
+//@   entry-assume resp.client.delayInit > 0 && resp.client.delayMax >= resp.client.delayInit
+//@   ensures backoff-at-least-configured-delay: ch.backoffCur > 0 ==> $ns(t) >= $ns(pre(ch.backoffLast)) + resp.client.delayInit
+//@   ensures released-time-recorded: ch.backoffCur > 0 ==> ch.backoffLast == t
